@@ -9,6 +9,7 @@ import LexprModel.ListOps
 import LexprModel.Generated.Tables
 import LexprModel.SerdeDrv
 import LexprModel.Macro
+import LexprModel.Spec.ReaderExec
 import LexprModel.ConsOps
 import LexprModel.ConsOpsDatum
 
@@ -791,6 +792,15 @@ def execConsmut (t : List String) : String :=
   " | ".intercalate ((ConsOps.run { root := root } steps).map fmtObs)
 
 
+/-- `specrd <S|E> <hex text> ;; <value>`: the INDEPENDENT reader of the documented grammar (LexprModel/Spec/Reader*.lean,
+    not the model of the crate's parser) applied to a text the real printer wrote -/
+def execSpecrd (t : List String) : String :=
+  let text := unhex (t.getD 2 "")
+  let r := if t.getD 1 "S" == "E" then Lexpr.Spec.readElisp text else Lexpr.Spec.readScheme text
+  match r with
+  | some v => "ok " ++ encValue v
+  | none => "none"
+
 def exec (line : String) : String :=
   let t := (line.trimAscii.toString.splitOn " ").filter (· != "")
   match t.head? with
@@ -810,6 +820,7 @@ def exec (line : String) : String :=
   | some "macro" => execMacro t
   | some "de" => execDe t
   | some "opts" => execOpts t
+  | some "specrd" => execSpecrd t
   | some "clone" => execClone t
   | some "dclone" => execDclone t
   | some "consmut" => execConsmut t
